@@ -118,7 +118,7 @@ func RunBlocks(base string, res *RunResult, blocks []Block, hk *Hooks) {
 			return
 		}
 		if !hk.NoStates {
-			st, err := c.DumpState(0, c.Deployed)
+			st, err := c.DumpState(0, append(append([][]byte{}, c.Deployed...), c.Watch...))
 			if err != nil {
 				res.Err = "dump: " + err.Error()
 				return
